@@ -4,6 +4,8 @@
 //!   S1 nothing pending -> Poll::Pending; after a later raise the waker fires; next poll Ready(Some)
 //!   S2 closed before the first poll -> Ready(None)
 //!   S3 Pending, then close() -> the waker fires; next poll Ready(None)
+//!   S4 as S3 and S5 as S1, but with a STALE wake-up byte in the self-pipe: two deliveries, each consumed at
+//!      once (the second is picked up by the batch still held by the stream, its byte stays behind)
 //! One line per situation:  `<adapter> <Sx> first=<..> wakes0=<n> wakes1=<n> second=<..>`
 use futures_core::Stream;
 use std::future::Future;
@@ -83,13 +85,34 @@ where
     if which == "S2" {
         handle.close();
     }
+    if which == "S4" || which == "S5" {
+        for _ in 0..2 {
+            unsafe { libc::raise(SIG) };
+            let mut got = false;
+            for _ in 0..40 {
+                match poll_once(&mut stream, &waker) {
+                    Poll::Ready(Some(_)) => {
+                        got = true;
+                        break;
+                    }
+                    Poll::Ready(None) => break,
+                    Poll::Pending => drive(),
+                }
+            }
+            if !got {
+                println!("{} {} first=prefix-lost wakes0=0 wakes1=0 second=-", adapter, which);
+                return;
+            }
+        }
+        drive();
+    }
     let first = poll_once(&mut stream, &waker);
     let w0 = count.load(Ordering::SeqCst);
     match which {
-        "S1" => unsafe {
+        "S1" | "S5" => unsafe {
             libc::raise(SIG);
         },
-        "S3" => handle.close(),
+        "S3" | "S4" => handle.close(),
         _ => {}
     }
     // let the reactor run (at most ~1.5 s) until the waker has fired
@@ -138,7 +161,7 @@ fn main() {
         libc::alarm(60);
     }
     mio_cases();
-    for which in ["S1", "S2", "S3"].iter() {
+    for which in ["S1", "S2", "S3", "S4", "S5"].iter() {
         // ---- tokio ----
         {
             let rt = tokio::runtime::Builder::new_current_thread().enable_io().build().unwrap();
